@@ -38,6 +38,8 @@ class Effect:
             return "bb%d%s: %s = .." % (self.blk, _ctx(self.node), self.dest)
         if self.kind == "drop":
             return "bb%d%s: drop(%s)" % (self.blk, _ctx(self.node), self.dest)
+        if self.kind == "discr":
+            return "bb%d%s: discriminant(%s)" % (self.blk, _ctx(self.node), self.dest)
         return "bb%d%s: %s" % (self.blk, _ctx(self.node), self.kind)
 
 
@@ -87,6 +89,7 @@ class Abstraction:
         self.effects, self.returns, self.cuts, self.problems, self.notes = [], [], [], [], []
         self.watch_assign = [re.compile(w) for w in watch_assign]
         self._fields = {}
+        self._cfg_reads = {}
         self._defs = {}
         for b in body.blocks.values():
             if b.cleanup:
@@ -247,14 +250,35 @@ class Abstraction:
         if k == "cast":
             return self.read_op(env, rv[1])
         if k == "discr":
+            if rv[1][0] != "local":
+                # discriminant of a field reached from a parameter (configuration read): one free variable per access path
+                # when the root is a shared reference (the field cannot change during the call), a fresh one otherwise
+                cp, _ = self.cpath(rv[1])
+                root = rv[1]
+                while root[0] != "local":
+                    root = root[1]
+                rty = self.local_type(int(cp[1:].split("(")[0].split(".")[0])) if re.match(r"^_\d+", cp) else ""
+                stable = rty.startswith("&") and not rty.startswith("&mut")
+                if stable and cp in self._cfg_reads:
+                    v = self._cfg_reads[cp]
+                else:
+                    v = self.unknown(True)[0]
+                    if stable:
+                        self._cfg_reads[cp] = v
+                e = self.new_effect("discr", site[0], site[1], site[2])
+                e.dest, e.val, e.stable = cp, (v, UNKNOWN_ORG), stable
+                return (v, UNKNOWN_ORG)
             v = self.read_place(env, rv[1])
             return (v[0], v[1])
         if k == "adt":
             name = re.sub(r"::<[^<>]*(?:<[^<>]*(?:<[^<>]*>[^<>]*)*>[^<>]*)*>", "", rv[1])
             segs = name.split("::")
             org = UNKNOWN_ORG
-            if rv[2]:
-                org = self.read_op(env, rv[2][0][1])[1]
+            for _, fop in rv[2]:
+                o = self.read_op(env, fop)[1]
+                if o != UNKNOWN_ORG:
+                    org = o          # provenance of the first field that has one
+                    break
             if len(segs) >= 2 and segs[-2] in ENUM_VARIANTS and segs[-1] in ENUM_VARIANTS[segs[-2]]:
                 return (ENUM_VARIANTS[segs[-2]][segs[-1]], org)
             return (self.unknown()[0], org)
@@ -337,7 +361,7 @@ class Abstraction:
                 if s[0] != "assign":
                     self.problems.append("statement not recognised in bb%d: %s" % (blk.idx, str(s[1])[:100]))
                     continue
-                val = self.rvalue(env, s[2], node) if s[2][0] != "unsupported" else self.unknown()
+                val = self.rvalue(env, s[2], (node, blk.idx, g)) if s[2][0] != "unsupported" else self.unknown()
                 if s[1][0] == "local":
                     env[s[1][1]] = val
                 else:
@@ -421,7 +445,7 @@ class Abstraction:
             S.lines.append("(declare-fun %s () Bool)" % gm)
             S.lines.append("(assert (= %s %s))" % (gm, smt.lit(e.guard)))
             om = None
-            val = e.out if e.kind == "call" else (e.val[0] if e.val is not None else None)
+            val = e.out if e.kind == "call" else (e.val[0] if getattr(e, "val", None) is not None else None)
             if val is not None:
                 om = S.fresh("eo")
                 S.lines.append("(declare-fun %s () Int)" % om)
@@ -529,7 +553,7 @@ class Abstraction:
             if om is not None and model.get(om) is not None:
                 if e.kind == "call" and getattr(e, "boolish", False):
                     item["returned"] = _variant_name(e.ret_ty, model[om])
-                elif e.kind in ("assign", "return"):
+                elif e.kind in ("assign", "return", "discr"):
                     item["variant"] = model[om]
             out.append(item)
         return out
